@@ -32,24 +32,24 @@ P = {
          'Theorems: split yields the statement\'s pieces (one more than matches) for every well-formed oracle; splitn n yields the first n-1 and the remainder; n = 0 yields nothing; fused.'),
  'C11': ('proof', '6 C11', 'theorems over an arbitrary match sequence and replacer + correspondence',
          'Theorems: replacen equals the statement\'s rewrite of the first n match ranges; borrowed iff no item; fast and slow paths coincide for constant replacers when the iterators agree; first error is returned.'),
- 'C12': ('proof', '6 C12', 'round-trip and decision theorems on the expander model + exhaustive correspondence',
-         'Theorems: expansion(escape s) = s for both expanders, $$ -> $, verbatim copy without the substitution character, check soundness. Tie: all templates to length 4/5 over the 14-character alphabet.'),
+ 'C12': ('proof', '6 C12', 'round-trip and decision theorems on the expander model, specification tokenizer = code + exhaustive correspondence',
+         'Theorems: expansion(escape s) = s for both expanders, $$ -> $, verbatim copy without the substitution character, check soundness; C12b: the documented template syntax written as a specification tokenizer equals the expander of the code step by step for every template (C12_steps_eq_spec), token corollaries, compositionality. Tie: all templates to length 4/5 over the 14-character alphabet.'),
  'C13': ('proof', '6 C13', 'structural-induction theorems on the reference semantics + correspondence of analysis facts',
          "Theorems (all expressions, states, texts): C13_min_sound (no result shorter than min_size), C13_const_exact (exactly min_size when const_size; side conditions: single-character literals, no bare \\Z node, no usize saturation), C13_lookbehind_exact ('go back min_size, run the body' = 'some start ends exactly here'), C13_goback (fails rather than reading before the start), C13_accept_iff (look-behind rejected with the dedicated error iff a top-level alternative is not const-size), and in the engine stage (C01) the compiled look-behind computes the reference. Tie: per-node facts implementation vs model; oracle: enumerated match lengths vs facts."),
- 'C14': ('proof', '6 C14', 'model theorems on flag seeding + metamorphic differential',
-         'The recursive-descent parser is not modelled, so `builder option = (?i) prefix` is decided by the in-process differential; theorems cover the model side (case-insensitive matching is decided per node; options read only at the stated points).'),
+ 'C14': ('proof', '6 C14', 'theorems on the parser model (flag seeding) + metamorphic differential',
+         'Theorems (C14b, parser model, every byte string): the builder option seeds the parser flags exactly as a leading (?i) does - C14_parse_flag_partial under two side conditions each proved necessary by a counterexample theorem (known finding F20: P starting with a comment or a quantifier-like text); inner (?-i:..) negation by mutual induction on the reference semantics. Limits and delegate size options: in-process differential over the limit ladder (2^31..usize::MAX) on fancy and plain patterns.'),
  'C15': ('proof', '6 C15, 12.1', 'spec equations + compiler-correctness theorem + witness theorems + correspondence',
          'Theorems: the three conditional equations of the statement hold of the reference semantics (condition tried once; never falls back to no; no from the original position); C15_vm_correct_cond: the VM run of a compiled pattern with conditionals computes exactly that wherever s2ok allows them (loops, alternations, groups, negative look-arounds, branches of other conditionals; not inside atomic groups / positive look-arounds / other conditions: finding F8, negative witness theorems), programs without Delegate. Parser reading of the forms: expected-tree oracle + parser tie. Engine: implementation vs reference on all in-domain cases.'),
- 'C16': ('proof', '6 C16', 'counting theorems on renumber/groupCount + exploration',
-         'Theorems: renumber assigns pre-order numbers n..n+groupCount, captures_len of the model = 1 + groups; Captures accessors explored on the implementation.'),
+ 'C16': ('proof', '6 C16', 'induction over the parser descent + counting theorems + accessor laws + exploration',
+         'Theorems: renumber assigns pre-order numbers n..n+groupCount, captures_len of the model = 1 + groups; C16b: the parser counter equals the analyzer numbering for every byte string (induction over the whole recursive descent), the names table is the opening order, capture_names is the same vector for every HashMap iteration order, Captures accessor laws (len, get, name, iter) on both paths from VmCorrectR. Accessors also explored on the implementation.'),
  'C17': ('proof', '6 C17', 'theorems on escape/push_quoted over the extracted special set + exhaustive correspondence',
-         'Theorems: escape borrows iff no special character; unescaping the result gives back the string; escaped text contains no unescaped special character; to_str of a literal tree is the escaped string. The parse of the escaped string is explored (tree equality), not proved.'),
+         'Theorems: escape borrows iff no special character; unescaping the result gives back the string; escaped text contains no unescaped special character; to_str of a literal tree is the escaped string; C17b: the parser model maps escape(s) to the literal tree of s for every s, so with C17_literal_sem escape(s) matches exactly s. Tie: parser tie + exhaustive short strings on the implementation.'),
  'C18': ('other', '6 C18', 'history-independence theorem + concurrent correspondence',
          'Theorem: model searches are functions of (regex, text, pos, flags) so any interleaving gives per-call the standalone result; no interior-mutability type in the extracted field lists. Real schedules are explored (2..16 threads), not proved.'),
- 'C19': ('proof', '6 C19', 'spec lemmas + translation-validation style correspondence',
-         'Theorems: singleton/flattened concat and alt have the same reference semantics; possessive = atomic(repeat) by construction. Whole-pattern spelling equivalence is decided by tree equality and identical results on the explored space (parser not modelled).'),
+ 'C19': ('proof', '6 C19', 'spec lemmas + parse-tree equality theorems on the parser model + translation-validation style correspondence',
+         'Theorems: singleton/flattened concat and alt have the same reference semantics; C19b (parser model): comments, the escape table, scoped flags, relative back-references and possessive = atomic give equal parse trees (24 theorems; negative theorem for known finding F19). Remaining spellings: tree equality and identical results on the explored space, every style crossed with the flags i U s m x; parser tie.'),
  'C20': ('proof', '6 C20', 'refinement proof by induction over operation sequences + correspondence',
-         'Theorems: the undo-log state refines whole-state copies for every sequence of push/pop/save/cut operations (invariant + abstraction commute). Tie: full internal state after every step of exhaustive short and random long sequences.'),
+         'Theorems: the undo-log state refines whole-state copies for every sequence of push/pop/save/cut operations (invariant + abstraction commute); C20b: the literal swap-based compaction loop of backtrack_cut equals the order-preserving filter, so the refinement covers enter/commit of atomic groups and raw auxiliary-stack operations; commit discards exactly the newer branches, backtracking after commit restores. Tie: full internal state after every step of exhaustive short and random long sequences (incl. 140-slot vectors).'),
 }
 
 
